@@ -6,11 +6,14 @@
      dval          a Go `any`: (Some dynamic-type, payload), or (None, _) = the nil interface
      gcache        xsync.MapOf[cacheKey, any] as an association list
      xsync_compute MapOf.Compute(key, fn): fn sees (old value, loaded); it returns (new value,
-                   delete?) — and here also the captured variables it assigned; the entry is
-                   stored unless deleted; result: the value, stored?, captured (one atomic step)
-     extract_and_convert T key   extractAndConvert[T](cfg.data, key) assigned to an `any`:
-                   the converted value boxed with its dynamic type (T itself for a concrete T;
-                   for an interface T the decoded value's own type, or the nil interface)
+                   delete?) — and here also the captured variables it assigned — or panics (None);
+                   the entry is stored unless deleted; result: the value, stored?, captured (one
+                   atomic step); a panic of fn escapes Compute (None)
+     box T v       a value of type T stored in an `any`: boxed with its dynamic type (T itself for
+                   a concrete T; for an interface T the decoded value's own type, or the nil
+                   interface)
+     gout          result of a function that works on the memo: GRet memo results | GPanic (a
+                   runtime panic escapes) | GMustPanic memo (MustGet's panic(err))
      type_assert T v             v.(T): None = panic
      dval_is_nil v               v == nil                                                 *)
 From Coq Require Import List String Bool Arith.
@@ -43,14 +46,18 @@ Section Prims.
     end.
 
   Definition xsync_compute {X} (c : gcache ty) (k : string * ty)
-             (fn : dval ty -> bool -> (dval ty * bool) * X) : gcache ty * dval ty * bool * X :=
+             (fn : dval ty -> bool -> option ((dval ty * bool) * X)) : option (gcache ty * dval ty * bool * X) :=
     match glookup k c with
     | Some old =>
-        let '((nv, del), x) := fn old true in
-        (if del then gremove k c else (k, nv) :: gremove k c, nv, negb del, x)
+        match fn old true with
+        | Some ((nv, del), x) => Some (if del then gremove k c else (k, nv) :: gremove k c, nv, negb del, x)
+        | None => None
+        end
     | None =>
-        let '((nv, del), x) := fn (nil_dval ty) false in
-        (if del then c else (k, nv) :: c, nv, negb del, x)
+        match fn (nil_dval ty) false with
+        | Some ((nv, del), x) => Some (if del then c else (k, nv) :: c, nv, negb del, x)
+        | None => None
+        end
     end.
 
   Definition box (T : ty) (v : val) : dval ty :=
@@ -70,7 +77,16 @@ Section Prims.
     end.
 End Prims.
 
+Inductive gout (C A : Type) : Type :=
+| GRet (c : C) (a : A)
+| GPanic
+| GMustPanic (c : C).
+Arguments GRet {C A} c a.
+Arguments GPanic {C A}.
+Arguments GMustPanic {C A} c.
+
 Definition dval_is_nil {ty} (v : dval ty) : bool := match fst v with None => true | Some _ => false end.
 Arguments xsync_compute {ty} ty_eqb {X} c k fn.
 Arguments extract_and_convert {ty} is_iface dyn_of_any conv T key.
+Arguments box {ty} is_iface dyn_of_any T v.
 Arguments type_assert {ty} ty_eqb is_iface T v.
